@@ -100,7 +100,14 @@ def check_axis_carriers(prog, rep):
     # transposition of the blocks uses the same axes
     f = m.func('Array.itranspose')
     rep.instance('AXIS-carriers', {'function': 'Array.itranspose', 'check': 'blocks'})
-    if 'np.transpose(block, axes)' not in unparse(f):
+    okb = False
+    for c in body_nodes(f):
+        e = pmatch('np.transpose($b, $$ax)', c) or pmatch('$b.transpose($$ax)', c)
+        if e and unparse(e['$$ax']) in ('axes', 'tuple(axes)', 'axes_arr'):
+            src = iteration_source(f, e['$b'], at=c)
+            if src is not None and 'self._data' in unparse(src):
+                okb = True
+    if not okb:
         rep.violation('AXIS-carriers', m, 'Array.itranspose', 'blocks-axes',
                       'the blocks must be transposed with the same `axes` as legs and labels',
                       f.lineno)
@@ -479,29 +486,38 @@ def check_binary_sides(prog, rep):
     """in the merge of two block lists every call func(x, y) takes x from self's side and y from
     other's side (zeros stand in for a missing block of that side)"""
     m = prog.module(NPC)
-    f = m.func('Array.ibinary_blockwise')
+    f0 = m.func('Array.ibinary_blockwise')
+    f = inline_temps(f0)
+    po = params(f0)[2]
     n = 0
+
+    def side(e, at):
+        """'a' (blocks of self) / 'b' (blocks of other) / '?'; zeros_like(X) has X's shape, i.e.
+        stands in for the OTHER side"""
+        sd = set()
+        for x in ast.walk(e):
+            if isinstance(x, ast.Attribute) and x.attr in ('_data', '_qdata') and \
+                    isinstance(x.value, ast.Name):
+                sd.add('a' if x.value.id == 'self' else ('b' if x.value.id == po else '?'))
+            if isinstance(x, ast.Name) and isinstance(x.ctx, ast.Load):
+                src = iteration_source(f, x.id, at=at)
+                if src is not None:
+                    sd |= {'a' if 'self._' in unparse(src) and po + '._' not in unparse(src)
+                           else ('b' if po + '._' in unparse(src) and 'self._' not in unparse(src)
+                                 else '?')}
+        sd.discard('?')
+        return sd.pop() if len(sd) == 1 else '?'
+
     for c in body_nodes(f):
         if isinstance(c, ast.Call) and isinstance(c.func, ast.Name) and c.func.id == 'func' and \
-                len(c.args) == 2:
+                len(c.args) == 2 and not isinstance(parent(c), ast.Lambda):
             n += 1
             x, y = c.args
-            rep.instance('SIDES-binary', {'call': unparse(c)})
-
-            def side(e):
-                t = unparse(e)
-                if t.startswith('np.zeros_like('):
-                    inner = t[len('np.zeros_like('):-1]
-                    return 'b' if inner.startswith('bdata') or inner == 'bt' else \
-                        'a' if inner.startswith('adata') or inner == 'at' else '?'
-                if t.startswith('adata') or t == 'at' or t == 'a':
-                    return 'a'
-                if t.startswith('bdata') or t == 'bt' or t == 'b':
-                    return 'b'
-                return '?'
-            sx, sy = side(x), side(y)
-            zx, zy = unparse(x).startswith('np.zeros_like('), unparse(y).startswith(
-                'np.zeros_like(')
+            rep.instance('SIDES-binary', {'call': unparse(c)[:100]})
+            zx = isinstance(x, ast.Call) and dotted(x.func) == 'np.zeros_like'
+            zy = isinstance(y, ast.Call) and dotted(y.func) == 'np.zeros_like'
+            sx = side(x.args[0] if zx and x.args else x, c)
+            sy = side(y.args[0] if zy and y.args else y, c)
             # x: real a-block, or zeros shaped like the b-block;  y: real b-block or zeros like a
             okx = (sx == 'a' and not zx) or (zx and sx == 'b') or sx == '?'
             oky = (sy == 'b' and not zy) or (zy and sy == 'a') or sy == '?'
@@ -511,22 +527,29 @@ def check_binary_sides(prog, rep):
                               '`%s`: the first argument of func must come from self (a block of '
                               'self, or zeros in place of a block missing in self) and the second '
                               'from other; swapped operands give wrong results for every '
-                              'non-symmetric function (subtract, divide, ...)' % unparse(c),
+                              'non-symmetric function (subtract, divide, ...)' % unparse(c)[:120],
                               c.lineno)
     if n < 3:
         raise AnalysisError('ibinary_blockwise: merge calls of func not found')
+    first_use = min(c.lineno for c in body_nodes(f0) if isinstance(c, ast.Call) and
+                    isinstance(c.func, ast.Name) and c.func.id == 'func' and
+                    not isinstance(parent(c), ast.Lambda))
     # both block lists sorted before the merge
-    src = unparse(f)
     rep.instance('SIDES-binary', {'check': 'sorted before merge'})
-    if 'self.isort_qdata()' not in src or 'other.isort_qdata()' not in src:
+    srt = {unparse(c.func.value): c.lineno for c in body_nodes(f0) if isinstance(c, ast.Call) and
+           isinstance(c.func, ast.Attribute) and c.func.attr == 'isort_qdata'}
+    if not ({'self', po} <= set(srt)) or max(srt['self'], srt[po]) > first_use:
         rep.violation('SIDES-binary', m, 'Array.ibinary_blockwise', 'merge-unsorted',
                       'the two-pointer merge requires both block lists to be lexsorted first',
-                      f.lineno)
+                      f0.lineno)
     # labels are matched before combining
     rep.instance('SIDES-binary', {'check': 'labels aligned'})
-    if 'other._transpose_same_labels(self._labels)' not in src:
+    al = [st for st in stmts_of(f0) if pmatch('%s = %s._transpose_same_labels(self._labels)' %
+                                               (po, po), st) or
+          pmatch('%s = %s._transpose_same_labels(self.get_leg_labels())' % (po, po), st)]
+    if not al or al[0].lineno > min(srt.values() or [first_use]):
         rep.violation('SIDES-binary', m, 'Array.ibinary_blockwise', 'labels-not-aligned',
-                      'other must be transposed to the label order of self first', f.lineno)
+                      'other must be transposed to the label order of self first', f0.lineno)
 
 
 def run(prog, rep, tier):
